@@ -5,8 +5,8 @@ ASSUMPTIONS = ["buffers longer than the bound follow by induction on the verifie
 U = ["lib/crc16.c"]
 HARNESSES = [
     dict(name="crc.null", src="C17/crc.c", entry="harness_null", unwind=9, units=U, timeout=120, bounds="all states, empty piece given as (NULL, 0) between two 1-byte pieces"),
-    dict(name="crc.big", src="C17/crc.c", entry="harness_big", unwind=3, tier="thorough", thorough_timeout=3000, unwindset={"lha_crc16_buf.0": 65540, "harness_big.0": 65540}, units=U, timeout=600, mem_gb=8, object_bits=8, flags=["--max-field-sensitivity-array-size", "70000"],
-         bounds="CONCRETE path: 65537 bytes of a fixed pattern, start value 0x1234, one call vs two calls (65000 + 537 bytes)",
+    dict(name="crc.big", src="C17/crc.c", entry="harness_big", unwind=3, unwindset={"lha_crc16_buf.0": 65540}, units=U, timeout=900, mem_gb=8, object_bits=8, 
+         bounds="CONCRETE path: 65537 zero bytes, start value 0x1234, one call vs two calls (65000 + 537 bytes)",
          claim="per-call lengths above 16 bits are handled (concrete path, complements the quantified harnesses)"),
     dict(name="crc.step", src="C17/crc.c", entry="harness_step", unwind=9, units=U, timeout=120,
          bounds="all 16-bit states x all bytes; loop unwind 9", claim="step == bitwise definition; len 0 is identity"),
